@@ -44,6 +44,7 @@ impl Walrus {
                         tail_offset: 0,
                         reads_since_persist: 0,
                         hydrated_from_index: false,
+                        commit_seq: 0,
                     }))
                 })
                 .clone()
@@ -158,7 +159,8 @@ impl Walrus {
                         if checkpoint {
                             info.cur_block_offset = new_off;
                             maybe_persist = if self.should_persist(&mut info, false) {
-                                Some((info.cur_block_idx as u64, new_off))
+                                info.commit_seq += 1;
+                                Some((info.commit_seq, info.cur_block_idx as u64, new_off))
                             } else {
                                 None
                             };
@@ -169,9 +171,9 @@ impl Walrus {
                         #[cfg(walrus_verif)]
                         crate::wal::verif::yield_point("rn_sealed_before_persist");
                         if checkpoint {
-                            if let Some((idx_val, off_val)) = maybe_persist {
+                            if let Some((seq, idx_val, off_val)) = maybe_persist {
                                 if let Ok(mut idx_guard) = self.read_offset_index.write() {
-                                    let _ = idx_guard.set(col_name.to_string(), idx_val, off_val);
+                                    let _ = idx_guard.set_ordered(col_name.to_string(), seq, idx_val, off_val);
                                 }
                             }
                         }
@@ -201,7 +203,6 @@ impl Walrus {
             }
 
             // Tail path
-            let tail_snapshot = (info.tail_block_id, info.tail_offset);
             drop(info);
             #[cfg(walrus_verif)]
             crate::wal::verif::yield_point("rn_tail_after_snapshot");
@@ -224,6 +225,11 @@ impl Walrus {
             let mut info = info_arc.write().map_err(|_| {
                 io::Error::new(io::ErrorKind::Other, "col info write lock poisoned")
             })?;
+            // The lock was released since the first snapshot: another consumer may have made
+            // (and persisted) progress in this block meanwhile. Decisions below - above all the
+            // provisional "nothing of this block yet" position - must start from the current
+            // progress, or they move the durable cursor backwards.
+            let tail_snapshot = (info.tail_block_id, info.tail_offset);
             if let Some((tail_block_id, tail_off)) = persisted_tail {
                 if tail_block_id != active_block.id {
                     if let Some(idx) = info
@@ -237,9 +243,11 @@ impl Walrus {
                         info.cur_block_offset = tail_off.min(info.chain[idx].used);
                         if checkpoint {
                             if self.should_persist(&mut info, true) {
+                                info.commit_seq += 1;
                                 if let Ok(mut idx_guard) = self.read_offset_index.write() {
-                                    let _ = idx_guard.set(
+                                    let _ = idx_guard.set_ordered(
                                         col_name.to_string(),
+                                        info.commit_seq,
                                         info.cur_block_idx as u64,
                                         info.cur_block_offset,
                                     );
@@ -254,9 +262,11 @@ impl Walrus {
                         persisted_tail = Some((active_block.id, 0));
                         if checkpoint {
                             if self.should_persist(&mut info, true) {
+                                info.commit_seq += 1;
                                 if let Ok(mut idx_guard) = self.read_offset_index.write() {
-                                    let _ = idx_guard.set(
+                                    let _ = idx_guard.set_ordered(
                                         col_name.to_string(),
+                                        info.commit_seq,
                                         active_block.id | TAIL_FLAG,
                                         0,
                                     );
@@ -283,9 +293,11 @@ impl Walrus {
                 // AtLeastOnce mode, persist on every read and reset the persist_every counter.
                 if checkpoint && tail_snapshot.0 != active_block.id {
                     if self.should_persist(&mut info, true) {
+                        info.commit_seq += 1;
                         if let Ok(mut idx_guard) = self.read_offset_index.write() {
-                            let _ = idx_guard.set(
+                            let _ = idx_guard.set_ordered(
                                 col_name.to_string(),
+                                info.commit_seq,
                                 active_block.id | TAIL_FLAG,
                                 start_off,
                             );
@@ -346,7 +358,8 @@ impl Walrus {
                             info.tail_block_id = active_block.id;
                             info.tail_offset = new_off;
                             maybe_persist = if self.should_persist(&mut info, false) {
-                                Some((tail_block_id | TAIL_FLAG, new_off))
+                                info.commit_seq += 1;
+                                Some((info.commit_seq, tail_block_id | TAIL_FLAG, new_off))
                             } else {
                                 None
                             };
@@ -355,9 +368,9 @@ impl Walrus {
                         #[cfg(walrus_verif)]
                         crate::wal::verif::yield_point("rn_tail_before_persist");
                         if checkpoint {
-                            if let Some((idx_val, off_val)) = maybe_persist {
+                            if let Some((seq, idx_val, off_val)) = maybe_persist {
                                 if let Ok(mut idx_guard) = self.read_offset_index.write() {
-                                    let _ = idx_guard.set(col_name.to_string(), idx_val, off_val);
+                                    let _ = idx_guard.set_ordered(col_name.to_string(), seq, idx_val, off_val);
                                 }
                             }
                         }
@@ -660,6 +673,7 @@ impl Walrus {
                             tail_block_id: 0,
                             tail_offset: 0,
                             hydrated_from_index: false,
+                            commit_seq: 0,
                         }))
                     })
                     .clone()
@@ -1197,6 +1211,8 @@ impl Walrus {
                 None,
             }
             let mut target = PersistTarget::None;
+            // ticket of this commit, taken under the column lock (see WalIndex::set_ordered)
+            let mut target_seq: u64 = 0;
 
             let mut update_state = |info: &mut ColReaderInfo| {
                 // Offset-addressed (stateless) reads never move the shared cursor, whatever
@@ -1226,6 +1242,8 @@ impl Walrus {
                         info.tail_block_id = final_tail_block_id;
                         info.tail_offset = final_tail_offset;
                         if should_persist_disk {
+                            info.commit_seq += 1;
+                            target_seq = info.commit_seq;
                             target = PersistTarget::Tail {
                                 blk_id: final_tail_block_id,
                                 off: final_tail_offset,
@@ -1235,6 +1253,8 @@ impl Walrus {
                         info.cur_block_idx = final_block_idx;
                         info.cur_block_offset = final_block_offset;
                         if should_persist_disk {
+                            info.commit_seq += 1;
+                            target_seq = info.commit_seq;
                             target = PersistTarget::Sealed {
                                 idx: final_block_idx as u64,
                                 off: final_block_offset,
@@ -1268,12 +1288,12 @@ impl Walrus {
                 match target {
                     PersistTarget::Tail { blk_id, off } => {
                         if let Ok(mut idx_guard) = self.read_offset_index.write() {
-                            let _ = idx_guard.set(col_name.to_string(), blk_id | TAIL_FLAG, off);
+                            let _ = idx_guard.set_ordered(col_name.to_string(), target_seq, blk_id | TAIL_FLAG, off);
                         }
                     }
                     PersistTarget::Sealed { idx, off } => {
                         if let Ok(mut idx_guard) = self.read_offset_index.write() {
-                            let _ = idx_guard.set(col_name.to_string(), idx, off);
+                            let _ = idx_guard.set_ordered(col_name.to_string(), target_seq, idx, off);
                         }
                     }
                     PersistTarget::None => {}
